@@ -110,9 +110,15 @@ func prctl(option uintptr, args ...uintptr) error {
 
 // seccomp syscall wrapper.
 func seccomp(op uintptr, flags FilterFlag, uargs unsafe.Pointer) error {
-	_, _, e := syscall.Syscall(unix.SYS_SECCOMP, op, uintptr(flags), uintptr(uargs))
+	r1, _, e := syscall.Syscall(unix.SYS_SECCOMP, op, uintptr(flags), uintptr(uargs))
 	if e != 0 {
 		return e
+	}
+	// With SECCOMP_FILTER_FLAG_TSYNC (and without TSYNC_ESRCH) the kernel
+	// reports a thread that could not be synchronized by returning its ID
+	// instead of setting errno. The filter has not been installed in that case.
+	if flags&FilterFlagTSync != 0 && flags&unix.SECCOMP_FILTER_FLAG_TSYNC_ESRCH == 0 && r1 != 0 {
+		return fmt.Errorf("thread %d could not be synchronized to the filter", r1)
 	}
 	return nil
 }
